@@ -148,7 +148,7 @@ def run(m, chk):
         "is a bare node parameter), dependence of the committed points / weights on nodes, old knot vector, old points and old weights. "
         "That the matrix is Boehm's (function preservation) and the multiset union of knots are not decided."
     )
-    chk.decides = ["WALK-ONCE (the nodes to insert / remove are walked once, or materialised first: a one-pass iterable cannot slip past the interval test)", "MIN-POINT (refinement uses nothing of a control point but scalar * point and point + point: no sum() from the int 0, no division, no point * scalar)", "DEHOMOG-PAIR (points divided by a list of weights are stored with exactly those weights)", "MEMO-KEY (no function on the path is memoised by the value of numbers / knot vectors)", "V1", "X-ASSERT", "COMMIT-LAST", "NO-INPLACE-ELEM", "D", "DEP-MAY of committed state", 'PRECHECK (zero-test of new weights before the commit)', 'MULT-KEEP (inserted nodes keep their multiplicity)']
+    chk.decides = ["EXACT-PATH (knot_insert reaches the refitting knot-vector setter only where self.ctrlpoints is None: a curve with control points always goes through the exact insertion matrix)", "WALK-ONCE (the nodes to insert / remove are walked once, or materialised first: a one-pass iterable cannot slip past the interval test)", "MIN-POINT (refinement uses nothing of a control point but scalar * point and point + point: no sum() from the int 0, no division, no point * scalar)", "DEHOMOG-PAIR (points divided by a list of weights are stored with exactly those weights)", "MEMO-KEY (no function on the path is memoised by the value of numbers / knot vectors)", "V1", "X-ASSERT", "COMMIT-LAST", "NO-INPLACE-ELEM", "D", "DEP-MAY of committed state", 'PRECHECK (zero-test of new weights before the commit)', 'MULT-KEEP (inserted nodes keep their multiplicity)']
     chk.not_decided = ["function preservation (the insertion matrix is Boehm's)", "new knot vector = sorted multiset union"]
     chk.assume("a setter's validation of an already computed value of the right length is not modelled as a failure point")
     c03.v1(r, chk)
@@ -163,6 +163,10 @@ def run(m, chk):
     from .extra import walk_once
 
     walk_once(r, chk, ["heavy.ImmutableKnotVector.__add__", "heavy.ImmutableKnotVector.__sub__"], floor=2)
+    walk_once(r, chk, ["curves.Curve.knot_insert"], floor=1, only=("nodes",))
+    from .extra import exact_path
+
+    exact_path(r, chk, ["curves.Curve.knot_insert"], floor=1)
     from .c16 import min_point
 
     min_point(r, chk, ["curves.BaseCurve.apply", "curves.Curve.knot_insert"], floor=2)
